@@ -298,12 +298,24 @@ PROVENANCE = [
     (r'^external_body:(G1|G2)::(clear_h|isogeny_map|osswu_map)$', 'contracts of units cofactor (C17) / symx:iso (C16) / sswu (C15)'),
     (r'^external_body:(G1Affine|G2Affine)::get_coeff_b$|^external_body:Fr::char$|^external_body:ax_neg_one_value$', 'value of the constant: checked as a closed term in unit consts'),
     (r'^external_body:Sgn0Result::eq$', 'derived PartialEq of a field-less enum: structural equality'),
+    (r'^external_body:hash_to_field$', 'block splitting proved in unit okm (C13); expand_message itself only through the labelled stand-in'),
+    (r'^external_body:Fq::(negate_if|sgn0)$|^external_body:Sgn0Result::bitxor$', 'contract proved in unit order (C18)'),
+    (r'^external_body:osswu_help_fq2?$', 'contract proved in unit sswuhelp (C15)'),
+    (r'^external_body:sswu_no_root$', 'A8: the terminal panic of the G2 SSWU map is unreachable (assumed)'),
+    (r'^external_body:GenericArray::|^external_body:U\d+::to_usize$', 'generic_array / typenum (dependency D3): lengths and slicing assumed'),
+    (r'^external_body:Vec::write_all$', 'std::io::Write for Vec<u8> (D2w): appends, assumed'),
     (r'^external_body:Error::new$|^external_body:repr_to_string$|^external_body:vec_from_elem$', 'error construction / allocation helper without a functional contract'),
 ]
 
 
 def provenance(unit, entry):
     import re as _re
+    if _re.search(r'^external_body:lem_G2', entry) and unit == 'curve':
+        return '  [transfer T1: same macro text as the G1 function whose lemma Verus proves; the identity is re-checked by the generator with exact integers]'
+    if _re.search(r'^external_body:lem_', entry):
+        return '  [generated lemma: statement in the main file, proof checked by Verus in a lemma file of the same unit]'
+    if _re.search(r'^external_body:j[12]ax_', entry):
+        return '  [A3: bridge from the proved chord-tangent relations to the abstract group]'
     for pat, note in PROVENANCE:
         if _re.search(pat, entry):
             return '  [' + note + ']'
